@@ -15,13 +15,14 @@ class Config:
     """One cluster configuration = constants of Cluster.tla + options of the real instances."""
 
     def __init__(self, n=2, core=(), sync=('STRICT',), auto_fence=False, fail='CONTINUE', t=2, sync_ticks=3,
-                 crash=0, restart=0, cut=0, user=0, slow=(), fix_f1=True, fix_f5=True, hold=False, rounds=6, k=8, name=None):
+                 crash=0, restart=0, cut=0, user=0, slow=(), fix_f1=True, fix_f5=True, hold=False, rounds=6, k=8, mismatch=(), name=None):
         self.n, self.core, self.sync = n, tuple(core), tuple(sync)
         self.auto_fence, self.fail, self.t, self.sync_ticks = auto_fence, fail, t, sync_ticks
         self.crash, self.restart, self.cut, self.user = crash, restart, cut, user
         self.slow = tuple(slow)
         self.fix_f1, self.hold, self.rounds, self.k = fix_f1, hold, rounds, k
         self.fix_f5 = fix_f5
+        self.mismatch = tuple(mismatch)
         # what supvisors.options.check_options does to the raw options
         eff = [s for s in self.sync if not (s == 'CORE' and not self.core)]
         self.eff_sync = tuple(eff)
@@ -30,7 +31,7 @@ class Config:
 
     def label(self):
         return (f'N{self.n}-{"+".join(self.sync)}-core{"".join(map(str, self.core)) or "0"}-'
-                f'{"fence" if self.auto_fence else "nofence"}-{self.fail}-T{self.t}-c{self.crash}r{self.restart}'
+                f'{"fence" if self.auto_fence else "nofence"}-{self.fail}-T{self.t}-mm{"".join(map(str, self.mismatch)) or 0}-c{self.crash}r{self.restart}'
                 f'k{self.cut}u{self.user}-slow{len(self.slow)}{"-hold" if self.hold else ""}')
 
     def tla_set(self, xs, strings=False):
@@ -47,7 +48,7 @@ class Config:
                  f'  MaxRestart = {self.restart}', f'  MaxCut = {self.cut}', f'  MaxUser = {self.user}',
                  f'  SlowQ = {slow}', '  Checkpoint = "COLD"', f'  FixF1 = {"TRUE" if self.fix_f1 else "FALSE"}',
                  f'  FixF5 = {"TRUE" if self.fix_f5 else "FALSE"}',
-                 f'  HoldDist = {"TRUE" if self.hold else "FALSE"}', f'  MaxRound = {self.rounds}', f'  D = {d}', f'  K = {self.k}']
+                 f'  HoldDist = {"TRUE" if self.hold else "FALSE"}', f'  Mismatch = {self.tla_set(self.mismatch)}', f'  MaxRound = {self.rounds}', f'  D = {d}', f'  K = {self.k}']
         if view:
             lines.append('VIEW View')
         if constraint:
@@ -68,7 +69,8 @@ class Config:
         return o
 
     def layout(self, programs=None):
-        return {f'n{i}': {'host': i, 'port': 60000 + i, 'programs': list(programs or [])}
+        return {f'n{i}': {'host': i, 'port': 60000 + i, 'programs': list(programs or []),
+                          'options': ({'starting_strategy': 'LESS_LOADED'} if i in self.mismatch else {})}
                 for i in range(1, self.n + 1)}
 
 
@@ -298,7 +300,8 @@ def run_monitor(cfg, traces, label='mon', workers=4):
         f.write('\n'.join(['SPECIFICATION Spec', 'CONSTANTS', f'  N = {cfg.n}',
                            f'  Core = {cfg.tla_set(cfg.core)}', f'  Sync = {cfg.tla_set(cfg.eff_sync, True)}',
                            f'  AutoFence = {"TRUE" if cfg.auto_fence else "FALSE"}',
-                           f'  FailStrat = "{cfg.eff_fail}"', f'  T = {cfg.t}']) + '\n')
+                           f'  FailStrat = "{cfg.eff_fail}"', f'  T = {cfg.t}',
+                           f'  Mismatch = {cfg.tla_set(cfg.mismatch)}']) + '\n')
     r = vlib.run_tlc('ClusterMon', cp, workers=workers, env={'TRACE_FILE': tf}, timeout=3000, heap='6g')
     if not r.ok:
         raise MachineryFailure(f'ClusterMon {cfg.name}: {r.error_text[:3000]}')
